@@ -25,6 +25,8 @@ Verdict(c) ==
   IF c.err # "" THEN "recovery failed: " \o c.err
   ELSE IF ~Matches(c, ObjIds(c), c.fold) THEN "recover() is not the merge of checkpoint and segments"
   ELSE IF ~Matches(c, AllIds(c), c.fold_wal) THEN "recover_with_wal() is not the merge of everything persisted"
+  ELSE IF "corrupt_read" \in DOMAIN c /\ c.corrupt_read.ok /\ ~Matches(c, ObjIds(c), c.corrupt_read.fold)
+       THEN "recovery over a corrupted segment download returned a part of the persisted state instead of failing"
   ELSE IF ~Matches(c, AllIds(c), c.node) THEN "node state after apply_recovered_state differs from the merge"
   ELSE IF ~Matches(c, AllIds(c), c.node2) THEN "repeating recovery changes the node state"
   ELSE "ok"
